@@ -192,6 +192,16 @@ pub fn run(o: &Opts) -> Report {
     let inputs = enumerate::strings(&['a', 'b'], n);
     let mut rep = Report::default();
     all_slices(&stacks, &inputs, &mut rep);
+    // extreme bounds: out of range, never a panic
+    slice1::<{ i32::MIN }>(&stacks, &inputs, &mut rep);
+    slice1::<{ i32::MAX }>(&stacks, &inputs, &mut rep);
+    slice1::<{ i32::MIN + 1 }>(&stacks, &inputs, &mut rep);
+    slice2::<{ i32::MIN }, 1>(&stacks, &inputs, &mut rep);
+    slice2::<0, { i32::MIN }>(&stacks, &inputs, &mut rep);
+    slice2::<0, { i32::MAX }>(&stacks, &inputs, &mut rep);
+    slice2::<{ i32::MIN }, { i32::MIN }>(&stacks, &inputs, &mut rep);
+    slice2::<{ i32::MAX }, { i32::MIN }>(&stacks, &inputs, &mut rep);
+    slice2::<-1, { i32::MAX }>(&stacks, &inputs, &mut rep);
     let own = |st: &[&str]| -> Vec<String> { st.iter().map(|s| s.to_string()).collect() };
     compare::<PEEK>("PEEK", &stacks, &inputs, &mut rep, &|st, i| {
         let top = st.last()?;
